@@ -253,8 +253,8 @@ theorem F4_system_at_cut_dropped :
 
 /-- the same through the modelled legacy template: prompt `"hi "` vs `"SYS hi "` -/
 example :
-    render 1 (([⟨.user, txt bHi, []⟩] : List Msg).map toRMsg) = bHi ++ [32] ∧
-    render 1 (([⟨.system, txt bSYS, []⟩, ⟨.user, txt bHi, []⟩] : List Msg).map toRMsg)
+    render false 1 (([⟨.user, txt bHi, []⟩] : List Msg).map toRMsg) = bHi ++ [32] ∧
+    render false 1 (([⟨.system, txt bSYS, []⟩, ⟨.user, txt bHi, []⟩] : List Msg).map toRMsg)
       = bSYS ++ [32] ++ bHi ++ [32] := by decide
 
 /-- non-vacuity: an `.ok` outcome with dropped messages, a kept system message, images renumbered
